@@ -788,8 +788,66 @@ func c05Lookup(c *Ctx, p *Prog, R string) {
 	var fn *ssa.Function
 	var prefix *ssa.Parameter
 	var prefixF *types.Var
+	// the library form of the scan: i := slices.IndexFunc(parts, func(part) bool { return bytes.HasPrefix(part, prefix) })
+	type libScan struct {
+		call  *ssa.Call
+		parts ssa.Value
+	}
+	var lib *libScan
+	var prefixCell *ssa.Alloc
 	for _, f := range p.Funcs("benchproc") {
-		if f.Parent() != nil || len(naturalLoops(f)) == 0 {
+		if f.Parent() != nil {
+			continue
+		}
+		for _, ci := range callsIn(f, "slices", "", "IndexFunc") {
+			call, ok := ci.(*ssa.Call)
+			mc, isMC := ci.Common().Args[1].(*ssa.MakeClosure)
+			if !ok || !isMC {
+				continue
+			}
+			pred := mc.Fn.(*ssa.Function)
+			// the predicate is exactly "the element has the prefix": every return is the HasPrefix call on its
+			// parameter and a captured parameter of f
+			good := len(pred.Params) == 1 && len(pred.Blocks) == 1
+			var bound ssa.Value
+			if good {
+				ret, isRet := pred.Blocks[0].Instrs[len(pred.Blocks[0].Instrs)-1].(*ssa.Return)
+				good = false
+				if isRet && len(ret.Results) == 1 {
+					if hc, isCall := ret.Results[0].(*ssa.Call); isCall && objIs(calleeObj(&hc.Call), "bytes", "", "HasPrefix") && hc.Call.Args[0] == ssa.Value(pred.Params[0]) {
+						arg := hc.Call.Args[1]
+						// a captured parameter lives in a cell: the closure loads it
+						if ld, isLd := arg.(*ssa.UnOp); isLd && ld.Op == token.MUL {
+							arg = ld.X
+						}
+						if fv, isFV := arg.(*ssa.FreeVar); isFV {
+							for i, v := range pred.FreeVars {
+								if v == fv {
+									bound = mc.Bindings[i]
+								}
+							}
+						}
+					}
+				}
+				if cell, isCell := bound.(*ssa.Alloc); isCell {
+					// written once, with the parameter
+					if sts := storesInto(cell); len(sts) == 1 {
+						if prm, isPrm := sts[0].Val.(*ssa.Parameter); isPrm {
+							bound = prm
+							prefixCell = cell
+						}
+					}
+				}
+				if prm, isPrm := bound.(*ssa.Parameter); isPrm && prm.Parent() == f {
+					good = true
+					fn, prefix = f, prm
+					lib = &libScan{call, ci.Common().Args[0]}
+				}
+			}
+		}
+	}
+	for _, f := range p.Funcs("benchproc") {
+		if f.Parent() != nil || len(naturalLoops(f)) == 0 || lib != nil {
 			continue
 		}
 		for _, call := range append(callsIn(f, "bytes", "", "HasPrefix"), callsIn(f, "bytes", "", "CutPrefix")...) {
@@ -809,6 +867,9 @@ func c05Lookup(c *Ctx, p *Prog, R string) {
 	site := p.pos(fn.Pos())
 	isPrefix := func(v ssa.Value) bool {
 		if prefix != nil && v == ssa.Value(prefix) {
+			return true
+		}
+		if ld, ok := v.(*ssa.UnOp); ok && ld.Op == token.MUL && prefixCell != nil && ld.X == ssa.Value(prefixCell) {
 			return true
 		}
 		if prefixF != nil {
@@ -876,6 +937,42 @@ func c05Lookup(c *Ctx, p *Prog, R string) {
 			}
 		}
 	}
+	if lib != nil {
+		// IndexFunc returns the first index whose element satisfies the predicate, scanning upwards; the function must
+		// return parts[i][len(prefix):] exactly where i >= 0 is known
+		okFwd = true
+		for _, b := range fn.Blocks {
+			ret, ok := b.Instrs[len(b.Instrs)-1].(*ssa.Return)
+			if !ok || len(ret.Results) != 1 {
+				continue
+			}
+			sl, ok := retVal(ret, 0).(*ssa.Slice)
+			if !ok || sl.Low == nil || sl.High != nil {
+				continue
+			}
+			lc, ok := sl.Low.(*ssa.Call)
+			if !ok {
+				continue
+			}
+			if bi, ok := lc.Call.Value.(*ssa.Builtin); !ok || bi.Name() != "len" || !isPrefix(lc.Call.Args[0]) {
+				continue
+			}
+			la := loadAddr(sl.X)
+			ia, ok := la.(*ssa.IndexAddr)
+			if !ok || ia.X != lib.parts || ia.Index != ssa.Value(lib.call) {
+				continue
+			}
+			for _, f := range factsAt(b) {
+				bo, ok := f.Cond.(*ssa.BinOp)
+				if !ok || bo.X != ssa.Value(lib.call) {
+					continue
+				}
+				if k, ok := constInt(bo.Y); ok && c05SignTest(bo.Op, k, false, f.True) == "0 5" {
+					okRet = true
+				}
+			}
+		}
+	}
 	// all parts are scanned: the slice indexed by the loop variable is the very slice Name.Parts returned — in the scan
 	// function itself, or handed to it whole at every call
 	isWholeParts := func(v ssa.Value) bool {
@@ -887,11 +984,29 @@ func c05Lookup(c *Ctx, p *Prog, R string) {
 		return false
 	}
 	nScan := 0
+	scanBlocks := []map[*ssa.BasicBlock]bool{}
 	for _, lp := range naturalLoops(fn) {
-		for b := range lp.Blocks {
+		scanBlocks = append(scanBlocks, lp.Blocks)
+	}
+	if lib != nil {
+		// the element read at the index the library scan returned
+		all := map[*ssa.BasicBlock]bool{}
+		for _, b := range fn.Blocks {
+			all[b] = true
+		}
+		scanBlocks = []map[*ssa.BasicBlock]bool{all}
+	}
+	for _, blocks := range scanBlocks {
+		for _, b := range fn.Blocks {
+			if !blocks[b] {
+				continue
+			}
 			for _, in := range b.Instrs {
 				ia, ok := in.(*ssa.IndexAddr)
 				if !ok {
+					continue
+				}
+				if lib != nil && (ia.X != lib.parts || ia.Index != ssa.Value(lib.call)) {
 					continue
 				}
 				if sl, ok := ia.X.Type().Underlying().(*types.Slice); !ok || !isBytesOrString(sl.Elem()) {
